@@ -44,6 +44,10 @@ def _spawn(what, seed, tier, env_extra):
     env.update(env_extra)
     env['PYTHONPATH'] = C.REPO + os.pathsep + env.get('PYTHONPATH', '')
     env['PYTHONHASHSEED'] = '0'
+    # OpenMP threads sleep instead of spinning while they wait: with 16 numba threads per process and
+    # several processes the spinning alone would take minutes
+    env.setdefault('OMP_WAIT_POLICY', 'passive')
+    env.setdefault('GOMP_SPINCOUNT', '0')
     p = subprocess.run([sys.executable, '-m', 'harness.c18_util', what, str(seed), tier],
                        cwd=C.VERIF, env=env, capture_output=True, text=True, timeout=3000)
     last = [ln for ln in p.stdout.splitlines() if ln.strip()]
@@ -68,9 +72,14 @@ def check_footprints(rep, res):
         def vid(x):
             return ids.setdefault(x, len(ids))
         bad_keys = [w for it in r['its'] for w in it[1] if not isinstance(w[0], int)]
+        if any(o[0] == 'store-into-shared-array' for o in r['outside']):
+            rep.violation(f"prange-shared-array:{r['kernel']}",
+                          f"{r['kernel']}: an iteration writes into an array that was allocated outside the loop "
+                          f"body and is not its own cell of the result (shared between the numba threads)", r)
+            continue
         if bad_keys or r['outside']:
             rep.violation(f"prange-footprint:{r['kernel']}",
-                          'a store through a non-integer key / outside any iteration', r)
+                          'a store through a non-integer key / a fill of a shared array inside an iteration', r)
             continue
         other_reads = [x for x in r['reads'] if x[0] != x[1]]
         if other_reads:
